@@ -87,4 +87,53 @@ theorem model_conditions (maxCap mask pIndex cIndex limit : BitVec 64) :
 theorem index_steps (p : BitVec 64) :
     MPSC_TryPush_c0 p = ((p &&& 1#64) == 1#64) := rfl
 
+/-! ### growth -/
+
+/-- the chunk linked by a resize has twice the capacity of the current one (length 2·(len−1)+1), and — chunk capacities and the
+    maximum being powers of two — never more than the maximum capacity; getNextBufferSize refuses (panics) exactly when the
+    current chunk is already longer than the maximum -/
+theorem growth_bounded (len maxCap : BitVec 64) (k m : Nat) (hk : k ≤ 60) (hm : m ≤ 60)
+    (hlen : len.toNat = 2 ^ k + 1) (hmax : (MPSC_getNextBufferSize_a0 maxCap).toNat = 2 ^ m)
+    (hok : MPSC_getNextBufferSize_c0 len (MPSC_getNextBufferSize_a0 maxCap) = false) :
+    (MPSC_getNextBufferSize_r0 (MPSC_getNextBufferSize_a2 len)).toNat = 2 * (len.toNat - 1) + 1 ∧
+    (MPSC_getNextBufferSize_r0 (MPSC_getNextBufferSize_a2 len)).toNat - 1 ≤ (MPSC_getNextBufferSize_a0 maxCap).toNat := by
+  have hk' : (2 : Nat) ^ k ≤ 2 ^ 60 := Nat.pow_le_pow_right (by decide) hk
+  have hm' : (2 : Nat) ^ m ≤ 2 ^ 60 := Nat.pow_le_pow_right (by decide) hm
+  have hle : len.toNat ≤ (MPSC_getNextBufferSize_a0 maxCap).toNat := by
+    unfold MPSC_getNextBufferSize_c0 at hok
+    simp only [BitVec.ult, decide_eq_false_iff_not, Nat.not_lt] at hok
+    exact hok
+  have hlt : len.toNat < 2 ^ 62 := by
+    rw [hlen]; exact Nat.lt_of_le_of_lt (Nat.add_le_add_right hk' 1) (by decide)
+  have hpos : 1 ≤ len.toNat := by rw [hlen]; exact Nat.le_add_left 1 _
+  have hsub : (len - 1#64).toNat = len.toNat - 1 := by
+    rw [BitVec.toNat_sub]
+    have h1 : (1#64).toNat = 1 := by decide
+    rw [h1]
+    have e : 2 ^ 64 - 1 + len.toNat = (len.toNat - 1) + 2 ^ 64 := by omega
+    rw [e, Nat.add_mod_right, Nat.mod_eq_of_lt (by omega)]
+  have hdouble : (MPSC_getNextBufferSize_a2 len).toNat = 2 * (len.toNat - 1) := by
+    unfold MPSC_getNextBufferSize_a2
+    rw [BitVec.toNat_mul, hsub]
+    have h2 : (2#64).toNat = 2 := by decide
+    rw [h2, Nat.mod_eq_of_lt (by omega)]
+  have hres : (MPSC_getNextBufferSize_r0 (MPSC_getNextBufferSize_a2 len)).toNat = 2 * (len.toNat - 1) + 1 := by
+    unfold MPSC_getNextBufferSize_r0
+    rw [BitVec.toNat_add, hdouble]
+    have h1 : (1#64).toNat = 1 := by decide
+    rw [h1, Nat.mod_eq_of_lt (by omega)]
+  refine ⟨hres, ?_⟩
+  rw [hres, hmax, hlen]
+  rw [hmax, hlen] at hle
+  -- 2^k + 1 ≤ 2^m gives k < m, hence 2·2^k ≤ 2^m
+  have hkm : k < m := by
+    apply Nat.lt_of_not_le
+    intro hmk
+    have := Nat.pow_le_pow_right (show 0 < 2 by decide) hmk
+    omega
+  have : 2 * 2 ^ k ≤ 2 ^ m := by
+    calc 2 * 2 ^ k = 2 ^ (k + 1) := by rw [Nat.pow_succ]; omega
+      _ ≤ 2 ^ m := Nat.pow_le_pow_right (by decide) hkm
+  omega
+
 end OtterVerif.Proofs.MpscGen
